@@ -140,7 +140,7 @@ type ReplayFile struct {
 }
 
 func sanitize(s string) string {
-	r := strings.NewReplacer("/", "_", ":", "_", "(", "", ")", "", "*", "p", "#", "_", " ", "_", "$", "_", "@", "_at_")
+	r := strings.NewReplacer("/", "_", ":", "_", "(", "", ")", "", "*", "p", "#", "_", " ", "_", "$", "_", "@", "_at_", "?", "q")
 	return r.Replace(s)
 }
 
